@@ -420,6 +420,31 @@ func (k *checker) checkStaticTraversal(tc *travCase, e hcl.Expression, where str
 		k.fail("static-traversal-steps:"+firstDiffStep(tc.Steps, want, got)+":"+where, "AbsTraversalForExpr returns steps different from the ones written", in, "got  "+lib.DumpTraversal(got)+"\nwant "+lib.DumpTraversal(want))
 		return false
 	}
+	// the traversal handed out is the caller's to work with: splitting it and joining the parts with other
+	// steps (building a sibling reference) gives the joined traversal and leaves everything else as it was —
+	// the expression's own static traversal, and the one obtained before
+	if len(got) >= 2 {
+		before := lib.DumpTraversal(got)
+		sp := got.SimpleSplit()
+		other := hcl.Traversal{hcl.TraverseAttr{Name: "zz_sibling"}}
+		joined := hcl.TraversalJoin(sp.Abs, other)
+		wantJoined := lib.DumpTraversal(append(hcl.Traversal{want[0]}, other...))
+		again, _ := hcl.AbsTraversalForExpr(e)
+		switch {
+		case lib.DumpTraversal(joined) != wantJoined:
+			k.fail("traversal-join:result:"+where, "TraversalJoin(split.Abs, rel) is not the root followed by rel", in, "got  "+lib.DumpTraversal(joined)+"\nwant "+wantJoined)
+			return false
+		case lib.DumpTraversal(got) != before:
+			k.fail("traversal-join:earlier-result-changed:"+where, "joining the root of a static traversal with other steps changed the traversal obtained before", in, "now  "+lib.DumpTraversal(got)+"\nwas  "+before)
+			return false
+		case lib.DumpTraversal(again) != before:
+			k.fail("traversal-join:expression-changed:"+where, "joining the root of a static traversal with other steps changed the expression's static traversal", in, "now  "+lib.DumpTraversal(again)+"\nwas  "+before)
+			return false
+		case lib.DumpTraversal(sp.Join()) != before:
+			k.fail("traversal-join:split-join:"+where, "TraversalSplit.Join() does not give the traversal back", in, lib.DumpTraversal(sp.Join()))
+			return false
+		}
+	}
 	rel, diags := hcl.RelTraversalForExpr(e)
 	wantRel := append(hcl.Traversal{hcl.TraverseAttr{Name: tc.Steps[0].S}}, want[1:]...)
 	if diags.HasErrors() || lib.DumpTraversal(rel) != lib.DumpTraversal(wantRel) || !rel.IsRelative() {
